@@ -330,6 +330,13 @@ def table_specs(draw, tier="quick", values="int", ids="simple", md=True,
         "samp": draw(id_lists(m, ids, "s")),
         "rows": rows,
     }
+    if ids == "simple" and draw(st.sampled_from([False] * 11 + [True])):
+        # an observation and a sample may share a name (numeric IDs often
+        # do); the two axes are separate name spaces
+        k = min(n, m)
+        rest = [x for x in spec["samp"][k:] if x not in spec["obs"][:k]]
+        if len(rest) == m - k:
+            spec["samp"] = list(spec["obs"][:k]) + rest
     if md:
         spec["obs_md"] = draw(simple_md(spec["obs"], distinct=distinct))
         spec["samp_md"] = draw(simple_md(spec["samp"], distinct=distinct))
